@@ -393,7 +393,7 @@ def main():
         if viol or res["undecided"] or tier == "thorough":
             cases, tms = (60000, 90000) if tier == "thorough" else (6000, 12000)
         else:
-            cases, tms = 2000, 4000
+            cases, tms = 6000, 8000
         bounded = replay.search(pid, cases, seed + 1, tms, os.path.join(BUILD, "replay", "%s-bounded.case" % pid))
     found = bool(bounded and bounded.get("available") and bounded.get("found"))
     held = bool(bounded and bounded.get("available") and not bounded.get("found") and bounded.get("explored", 0) > 0)
